@@ -222,7 +222,7 @@ def directory(seed, conf=False):
             props = {"name": n}
             if cmd in ("start", "stop", "restart", "incr"):
                 props["waiting"] = rng.random() < 0.5
-                if not conf:
+                if not conf and rng.random() < 0.5:      # (otherwise the default: the name is matched as a glob)
                     props["match"] = "simple" if cmd != "incr" else None
                     if props["match"] is None:
                         props.pop("match")
